@@ -16,6 +16,7 @@ pkg=./$(dirname "$demo")
 out=/verif/seeded/$sid
 mkdir -p "$out"
 # canonical patch: tracked-file diff only
+git add -N -- . ":!*zz_seed_demo_test.go" ":!*zz_benign_demo_test.go" ":!NOTES.md" 2>/dev/null  # new source files belong to the patch
 git diff -- . ':!*zz_seed_demo_test.go' > "$out/patch.diff"
 [ -s "$out/patch.diff" ] || { echo "empty patch (is it applied?)"; exit 2; }
 cp "$demo" "$out/$(basename "$demo")"
